@@ -115,6 +115,29 @@ def gather():
     mn = strip_tests(read("src/bin/copia/main.rs"))
     lo4, hi4 = bs_bounds(find(mn, r"fn validate_block_size\(size: usize\).*?\n\}", "cli validate_block_size", 0), "cli validate_block_size bounds")
     c["BS_MIN_CLI"], c["BS_MAX_CLI"] = lo4, hi4
+    # C19: glob metacharacters (plan.rs) and the remote listing format (meta.rs)
+    pl = strip_tests(read("src/bin/copia/plan.rs"))
+    gmf = find(pl, r"pub fn glob_match\(.*?\n\}", "plan::glob_match", 0)
+    stars = set(re.findall(r"p\[pi\]\s*==\s*'(.)'\s*\{", gmf))
+    if len(stars) != 1:
+        raise Missing("glob_match: the single star character (p[pi] == '*' {)")
+    c["GLOB_STAR"] = ord(stars.pop())
+    c["GLOB_QMARK"] = ord(find(gmf, r"\(p\[pi\]\s*==\s*'(.)'\s*\|\|\s*p\[pi\]\s*==\s*t\[ti\]\)", "glob_match: the one-character wildcard"))
+    c["PATH_SEP"] = ord(find(pl, r"pat\.trim_end_matches\('(.)'\)", "is_excluded: trim_end_matches"))
+    if find(pl, r"pat\.contains\('(.)'\)", "is_excluded: contains") != chr(c["PATH_SEP"]):
+        raise Missing("is_excluded: contains() and trim_end_matches() use different characters")
+    mt = strip_tests(read("src/bin/copia/meta.rs"))
+    find(mt, r"""find \. -type f -printf '%s\\\\t%T@\\\\t%p\\\\0'""", "meta.rs: find -printf '%s\\t%T@\\t%p\\0' listing format", 0)
+    pm = find(mt, r"pub fn parse_remote_meta_output\(.*?\n\}", "meta::parse_remote_meta_output", 0)
+    c["LISTING_REC_SEP"] = lit(find(pm, r"stdout\.split\(\|&b\|\s*b\s*==\s*(\d+)\)", "parse_remote_meta_output: record separator"))
+    nf, fs = re.search(r"\.splitn\((\d+),\s*'(\\?.)'\)", pm).groups() if re.search(r"\.splitn\((\d+),\s*'(\\?.)'\)", pm) else (None, None)
+    if nf != "3" or fs not in ("\\t",):
+        raise Missing("parse_remote_meta_output: splitn(3, '\\t')")
+    c["LISTING_FIELD_SEP"] = 9
+    c["LISTING_FRAC_SEP"] = ord(find(pm, r"mtime\s*\.split\('(.)'\)", "parse_remote_meta_output: fraction separator"))
+    pref = find(pm, r'path\.strip_prefix\("([^"]*)"\)', "parse_remote_meta_output: strip_prefix")
+    if pref != "./":
+        raise Missing("parse_remote_meta_output: strip_prefix(\"./\")")
     return c
 
 
